@@ -130,6 +130,18 @@ CHECKS = {
               'depth 3-4 by simulation; leaf kinds Vars(ro, lp), VarSub, Affine, dro DecVar, DecRule; constants int/float/int32/0-d ndarray/Python scalar/'
               'scipy.sparse (for * and @). Four defects are listed in KNOWN_FINDINGS.json (rank-4 matmul batch broadcasting, diag on non-square, '
               'diag(fill) non-square, VarSub.shape), one was repaired (RoAffine * sparse).')),
+    'C06': dict(
+        level='model_checking',
+        technique='TLC model checking of Dispatch.tla (routing of constraint kinds and of the objective epigraph through lp/socp/gcp) + replay of every table entry as an active constraint / objective in boxed ro and dro models with NumPy evaluation at the returned point',
+        design_ref='DESIGN.md 2.4, 5/C06, appendix B',
+        text=('Dispatch.tla transcribes st() of the three layers and the three objective-epigraph fragments (each layer rebuilds the epigraph constraint and '
+              'picks the xtypes it knows). TLC checks NothingDropped (found: xtype N as objective reached no encoder - repaired), EncoderMatchesAtom and '
+              'KnownReplaced (summed element-wise atoms - known finding). Every table entry is replayed with each atom of its xtype, in ro and dro front ends, '
+              'scaled and offset: the item is active at the optimum of a boxed model whose box corner violates it, the model is solved and the user '
+              'expression is evaluated with NumPy at x.get(); the reported objective must equal the objective expression there. KL, exponential and rotated '
+              'cones and maxof/minof are replayed the same way; the pinned-argument chains of Curvature.tla contribute their C06 findings.'),
+        note=('Trusted: TLC, the NumPy closed forms in harness/replay_dispatch.py, solver tolerances (LP 1e-6, SOC 2e-5, exp 5e-4, x10 margin). Loud failures '
+              '(exceptions) are recorded but not alarmed: the property is about silent dropping/replacement. LMI/logdet/rootdet only at the routing level (no SDP solver).')),
     'C07': dict(
         level='model_checking',
         technique='TLC model checking of IPCone.tla (power-cone tower) and LPSem.tla (brute-force MILP semantics) + replay of every exported parameter/program into rsome with exact multiplication-out of the emitted cones, closed-form atom values, re-formulation and three MILP interfaces',
